@@ -326,8 +326,8 @@ def gen_run_jobs(ctx, n):
     # the first runs are fixed in regime so that the quick tier covers every
     # regime; the rest are random
     plan = [
-        dict(kind='hex', cos_thresh=0.99, dist_thresh=0.0),
-        dict(kind='tet', cos_thresh=0.99, dist_thresh=0.0),
+        dict(kind='pyr', cos_thresh=0.99, dist_thresh=0.0),
+        dict(kind='prism', cos_thresh=0.99, dist_thresh=0.0, mat='shear', n=[2, 3, 2], elem_num=3),
         # creased (non-flat, planar-faced) bricks with cos_thresh strictly above every
         # non-coplanar dihedral cosine (crease cosines 0.995 and 0.99875): volume must be kept
         dict(kind='tet', cos_thresh=0.9999, dist_thresh=0.0, mat='identity', n=[4, 2, 2], elem_num=2,
@@ -340,15 +340,15 @@ def gen_run_jobs(ctx, n):
     ]
     for i in range(n):
         p = dict(plan[i]) if i < len(plan) else {}
-        kind = p.get('kind', rng.choice(['hex', 'tet']))
-        hi = 4 if kind == 'hex' else 3
+        kind = p.get('kind', rng.choice(['hex', 'tet', 'hex', 'tet', 'prism', 'pyr']))
+        hi = 3 if kind in ('tet', 'pyr') else 4
         nn = [rng.randint(1, hi) for _ in range(3)]
         nn = p.get('n', nn)
         if nn == [1, 1, 1]:
             nn[rng.randrange(3)] = 2
         mat = p.get('mat', rng.choice(['identity', 'identity', 'shear', 'rot3', 'refl3']))
         scale = p.get('scale', rng.choice([1.0, 1.0, 0.5, 0.25]))
-        n_nodes = (nn[0] + 1) * (nn[1] + 1) * (nn[2] + 1)
+        n_nodes = (nn[0] + 1) * (nn[1] + 1) * (nn[2] + 1) + (nn[0] * nn[1] * nn[2] if kind == 'pyr' else 0)
         idmode = rng.choice(['plain', 'sparse', 'shuffled'])
         node_ids = node_perm = None
         if idmode != 'plain':
@@ -823,7 +823,7 @@ def main(ctx):
                 'to face, node ids dense/sparse/large, faces rotated, cells and faces shuffled, IDS a '
                 'shuffled subset; plus non-manifold streams (duplicated cell, mirrored cell, 2-gons, '
                 'repeated node); non-trivial = at least two cells in IDS.  (b) whole compress runs on '
-                'hex/tet bricks (1-4 cells per axis) under integer affine maps (identity, shear, 3x '
+                'hex/tet/prism/pyramid bricks (1-4 cells per axis) under integer affine maps (identity, shear, 3x '
                 'rotation, 3x reflection), dyadic scale, sparse/shuffled node ids, elem_num, cos_thresh, '
                 'dist_thresh swept; non-trivial = compress returned a mesh with fewer cells.  (c) every '
                 'transfer function x kind x data shape ((N,1),(N,),(N,3)) x knn on those runs; '
